@@ -12,6 +12,7 @@ from __future__ import annotations
 
 import itertools
 
+from .. import codedict
 from ..harness import FAULT_CLASSES, Stepper, exc_info, new_gateway
 from ..harness import run as arun
 from ..lockstep import split_line
@@ -175,7 +176,7 @@ def cases(ctx):
     # long histories: the same command fails at MANY consecutive wakes before a working one (retry counters, caps)
     for version in ("2.0", "2.2"):
         for sends in ([[A, 0, 2]], [[A, 0, 2], [A, 1, 3]], [[A, 0, 2], [B, 0, 2]]):
-            for failures in (1, 2, 3, 4, 5, 6, 8, 12, 20, ctx.pick(40, 150)):
+            for failures in sorted({*range(1, 34), *codedict.thresholds([64, ctx.pick(40, 150)], low=2, cap=ctx.pick(300, 2000))}):
                 if ctx.mine():
                     yield {"version": version, "sends": sends, "wakes": [A] * (failures + 1) + [B],
                            "faults": list(range(failures)), "fault_class": FAULT_CLASSES[failures % len(FAULT_CLASSES)]}
